@@ -162,6 +162,7 @@ class E3Session(SessionBase):
         self.sim_doc = None
         self.ref_cache = {}
         self.plans = 0
+        self.last_cd = []
         self.failed_plans = 0
         self.plan_kinds = []
 
@@ -803,6 +804,18 @@ class E3Session(SessionBase):
                     not _rounded_ok(float(row['OSNR-0.1nm (average)']), float(np.mean(rx['osnr_ase_01nm']))):
                 raise Violation('C19', 'csv-metric-differs-from-receiver', f'{who}: {row["SNR-0.1nm (min)"]} vs '
                                 f'{float(np.min(rx["snr_01nm"]))!r}')
+            rq = it['rq']
+            mode_doc = next((m for m in self.equipment['Transceiver'][it['tsp']].mode if m['format'] == it['mode']), None)
+            if mode_doc is not None:
+                from fractions import Fraction
+                pairs = math.ceil(Fraction(int(round(it['path_bandwidth']))) / Fraction(int(round(mode_doc['bit_rate']))))
+                want = {'nb of tsp pairs': pairs, 'total cost': pairs * mode_doc['cost'],
+                        'bit rate': round(mode_doc['bit_rate'] * 1e-9, 2), 'baud rate (Gbaud)': round(mode_doc['baud_rate'] * 1e-9, 2),
+                        'path_bandwidth': round(it['path_bandwidth'] * 1e-9, 2)}
+                for col, v in want.items():
+                    if row[col] == '' or abs(float(row[col]) - v) > 1e-6:
+                        raise Violation('C19', 'csv-transponder-count-cost-or-rate-wrong', f'{who}: {col} = {row[col]!r}, '
+                                        f'computed {v} (bandwidth {it["path_bandwidth"]}, bit rate {mode_doc["bit_rate"]})')
             thr = it['rq'].OSNR + margin
             if abs(float(row['min required OSNR (inc. margin)']) - thr) > 1e-9:
                 raise Violation('C19', 'csv-threshold-excludes-margin', f'{who}: {row["min required OSNR (inc. margin)"]} '
@@ -883,6 +896,10 @@ class E3Session(SessionBase):
             if len(kinds) > 1 or any(len(it['ids']) > 1 or it['bidir'] for it in out['items']):
                 self.nontrivial = True
         self.plan_kinds.append('ok')
+        self.last_cd = [(it['tsp'], it['mode'], float(np.min(it['rx']['chromatic_dispersion'])),
+                         float(np.max(it['rx']['chromatic_dispersion'])))
+                        for it in out['items'] if it['rx'] is not None and it['mode'] is not None
+                        and not np.any(np.isnan(it['rx']['chromatic_dispersion']))]
         for it in out['items']:
             self.st.outcomes[it['blocking'] or 'served'] += 1
         return {'kind': f'{tag}:{n_items}:' + '+'.join(kinds),
@@ -912,6 +929,34 @@ class E3Session(SessionBase):
         self.snap_eq = strip_none(canon(self.equipment))
         self.ref_cache = {}
         self.st.faults['library_mode_edited'] += 1
+        return {'kind': 'edited'}
+
+    def do_edit_penalty(self, trx, mode, cd_hi):
+        """the operator replaces the CD penalty table of one mode (library object and documents alike)"""
+        if self.discarded:
+            return {'kind': 'discarded'}
+        table_doc = [{'chromatic_dispersion': cd_hi / 2, 'penalty_value': 0.5},
+                     {'chromatic_dispersion': cd_hi, 'penalty_value': 1.0}]
+        hit = False
+        for t in self.world['eqpt']['Transceiver']:
+            if t['type_variety'] != trx:
+                continue
+            for m in t['mode']:
+                if m['format'] == mode:
+                    m['penalties'] = [p for p in m.get('penalties', []) if 'chromatic_dispersion' not in p] + table_doc
+                    hit = True
+            for name in [t['type_variety']] + t.get('other_name', []):
+                if name in self.equipment['Transceiver']:
+                    for m in self.equipment['Transceiver'][name].mode:
+                        if m['format'] == mode:
+                            m['penalties'] = dict(m['penalties'])
+                            m['penalties']['chromatic_dispersion'] = {'up_to_boundary': [0, cd_hi / 2, cd_hi],
+                                                                      'penalty_value': [0, 0.5, 1.0]}
+        if not hit:
+            return {'kind': 'nomode'}
+        self.snap_eq = strip_none(canon(self.equipment))
+        self.ref_cache = {}
+        self.st.faults['library_penalty_table_edited'] += 1
         return {'kind': 'edited'}
 
     def do_set_sim(self, doc):
@@ -1000,7 +1045,7 @@ def request_strategy(draw, world, rid, swarm):
     if swarm['saturating'] and draw(st.integers(0, 3)) == 0:
         power = draw(st.sampled_from([4e-3, 6.3e-3, 1e-2]))
         nch = None
-    bw = draw(st.sampled_from([100e9, 200e9, 400e9, 300e9, 800e9]))
+    bw = draw(st.sampled_from([100e9, 200e9, 400e9, 300e9, 800e9, 500e9, 1000e9]))
     tb = {'technology': 'flexi-grid', 'trx_type': tname, 'trx_mode': mode['format'] if mode else None,
           'effective-freq-slot': [{'N': None, 'M': None}], 'spacing': spacing, 'max-nb-of-channel': nch,
           'output-power': power, 'path_bandwidth': bw}
@@ -1185,6 +1230,22 @@ def make_machine(prop, tier, cfg):
             mode = tb.get('trx_mode') or t['mode'][req % len(t['mode'])]['format']
             self.sess.apply('edit_mode', {'trx': t['type_variety'], 'mode': mode, 'delta_osnr': delta})
             self.sess.apply('plan', {'data': deepcopy(batch), 'fault': None, 'tag': 'after-edit'})
+
+        @precondition(lambda self: self.batches and self.sess is not None and getattr(self.sess, 'last_cd', None))
+        @rule(which=st.integers(0, 50), pick=st.integers(0, 9), frac=st.sampled_from([0.5, 0.25, 0.75, 1.5]))
+        def edit_penalty_at_the_cd_of_a_path(self, which, pick, frac):
+            # a CD penalty table that ends inside the spread of accumulated CD over the channels of a computed path
+            tsp, mode, lo, hi = self.sess.last_cd[pick % len(self.sess.last_cd)]
+            t = next((t for t in self.world['eqpt']['Transceiver']
+                      if tsp in [t['type_variety']] + t.get('other_name', [])), None)
+            if t is None or hi <= 0:
+                return
+            boundary = round(lo + (hi - lo) * frac, 3) if hi > lo else round(hi * frac, 3)
+            if boundary <= 0:
+                return
+            batch = self.batches[which % len(self.batches)]
+            self.sess.apply('edit_penalty', {'trx': t['type_variety'], 'mode': mode, 'cd_hi': boundary})
+            self.sess.apply('plan', {'data': deepcopy(batch), 'fault': None, 'tag': 'after-penalty-edit'})
 
         @precondition(lambda self: self.swarm['sim'] and self.world.get('flavour') != 'raman')
         @rule(which=st.integers(0, len(SIM_DOCS) - 1))
